@@ -714,6 +714,11 @@ func (hs *serverHandshakeStateGM) setCipherSuite(id uint16, supportedCipherSuite
 			if candidate == nil {
 				continue
 			}
+			// The server side of the ECDHE-SM2 key agreement is not implemented
+			// (ecdheKeyAgreementGM.generateServerKeyExchange): never select it.
+			if candidate.flags&suiteECDHE != 0 {
+				continue
+			}
 			if version < VersionTLS12 && candidate.flags&suiteTLS12 != 0 {
 				continue
 			}
